@@ -30,6 +30,7 @@ type iriLayout struct {
 	fields      []string // fields stored in bz[1..offset-1], in index order
 	offset      int64    // index of the first hash byte
 	format      string   // fmt.Sprintf format of the returned IRI
+	recv        string   // name of the receiver variable
 }
 
 // toIRI checks the shape of a ContentHash_X.ToIRI method:
@@ -52,6 +53,7 @@ func toIRI(f *astx.File, method string) iriLayout {
 	}
 	var lay iriLayout
 	lay.offset = -1
+	lay.recv = r
 	byIndex := map[int64]string{}
 	buf := ""
 	validated, encoded := false, false
@@ -574,9 +576,9 @@ func main() {
 	w("(* x/data/iri.go: every header byte after the prefix is written as bz[i] = byte(<recv>.<Field>), i.e. the\n")
 	w("   field is truncated to its low 8 bits and occupies exactly one byte (any other form is a generator error) *)\n")
 	w("Definition iri_field_conv_is_byte_trunc : bool := true.\n")
-	w("(* x/data/iri.go: ContentHash_Raw.ToIRI, make([]byte, len(chr.Hash)+%d) / copy(bz[%d:], chr.Hash) *)\n", rawLay.offset, rawLay.offset)
+	w("(* x/data/iri.go: ContentHash_Raw.ToIRI, make([]byte, len(%s.Hash)+%d) / copy(bz[%d:], %s.Hash) *)\n", rawLay.recv, rawLay.offset, rawLay.offset, rawLay.recv)
 	w("Definition iri_raw_hash_offset : N := %d.\n", rawLay.offset)
-	w("(* x/data/iri.go: ContentHash_Graph.ToIRI, make([]byte, len(chg.Hash)+%d) / copy(bz[%d:], chg.Hash) *)\n", graphLay.offset, graphLay.offset)
+	w("(* x/data/iri.go: ContentHash_Graph.ToIRI, make([]byte, len(%s.Hash)+%d) / copy(bz[%d:], %s.Hash) *)\n", graphLay.recv, graphLay.offset, graphLay.offset, graphLay.recv)
 	w("Definition iri_graph_hash_offset : N := %d.\n", graphLay.offset)
 	w("(* x/data/iri.go: fields stored in bz[1], bz[2], ... in index order *)\n")
 	w("Definition iri_raw_field_order : list bytes := %s.\n", astx.CoqBList(rawLay.fields))
